@@ -20,3 +20,5 @@ CONSTANTS
   Spellings = {"canon", "mixed"}
   MaskDecoded = TRUE
   ReadFailIsError = TRUE
+  Shapes = {"plain"}
+  RejectQuotesValue = FALSE
